@@ -302,11 +302,44 @@ def iterative_images(rep, r, n):
             except Exception as e:                              # noqa: BLE001
                 rep.violation(f'iterative-model-image-raises:{type(e).__name__}', f'IterativePSFPhotometry model image raised {e!r}', {'sources': srcs, 'mode': r_mode})
                 continue
+        bad = False
         for i, (kind, im) in enumerate(seq):
             exp = {'bkg': ref_bk, 'no': ref_no, 'res': img - ref_no}[kind]
             if not np.allclose(im, exp, rtol=0, atol=1e-9):
                 rep.violation('iterative-model-image-call-order', f'call #{i} ({kind}) of the sequence [with bkg, without, residual, with bkg] differs from a fresh object by '
                               f'{float(np.abs(im - exp).max()):.3g}', {'sources': srcs, 'mode': r_mode})
+                bad = True
+                break
+        if bad:
+            continue
+        # the SAME object run again on another exposure of the same shape (one source brighter, one removed): the images requested with
+        # the same arguments afterwards belong to the new run (seed C18-r8 kept the images of the previous run)
+        srcs2 = [(srcs[0][0], srcs[0][1], srcs[0][2] * 2.0), srcs[1]]
+        img2 = np.full((33, 35), 3.0)
+        for x, y, f in srcs2:
+            img2 += CircularGaussianPRF(flux=f, x_0=x, y_0=y, fwhm=2.5)(xx, yy)
+        tbl2 = Table({'x': [s_[0] for s_ in srcs2], 'y': [s_[1] for s_ in srcs2]})
+        with warnings.catch_warnings():
+            warnings.simplefilter('ignore')
+            try:
+                ph(img2, init_params=tbl2)
+                again = [('bkg', ph.make_model_image(img.shape, psf_shape=(9, 9), include_localbkg=True)),
+                         ('no', ph.make_model_image(img.shape, psf_shape=(9, 9), include_localbkg=False)),
+                         ('res', ph.make_residual_image(img2, psf_shape=(9, 9), include_localbkg=False))]
+                fresh = IterativePSFPhotometry(CircularGaussianPRF(fwhm=2.5), (5, 5), finder=DAOStarFinder(20.0, 2.5), aperture_radius=4,
+                                               localbkg_estimator=LocalBackground(5, 8), mode=r_mode, grouper=SourceGrouper(6.0), maxiters=2, progress_bar=False)
+                fresh(img2, init_params=tbl2)
+                f_no = fresh.make_model_image(img.shape, psf_shape=(9, 9), include_localbkg=False)
+                f_bk = fresh.make_model_image(img.shape, psf_shape=(9, 9), include_localbkg=True)
+            except Exception as e:                              # noqa: BLE001
+                rep.violation(f'iterative-model-image-raises:second-run:{type(e).__name__}', f'IterativePSFPhotometry second run raised {e!r}', {'sources': srcs, 'mode': r_mode})
+                continue
+        for kind, im in again:
+            exp = {'bkg': f_bk, 'no': f_no, 'res': img2 - f_no}[kind]
+            if not np.allclose(im, exp, rtol=0, atol=1e-9):
+                rep.violation('iterative-model-image-stale-after-second-run', f'after a second run of the same object on another exposure, the {kind} image differs from '
+                              f'that of a fresh object run on that exposure by {float(np.abs(im - exp).max()):.3g}',
+                              {'sources': srcs, 'second_exposure_sources': srcs2, 'mode': r_mode})
                 break
 
 
